@@ -431,6 +431,7 @@ func TestVerifC01(t *testing.T) {
 		decorateHostile(g, r, all)
 		_, feedNames := setFeeds(g, r)
 		s.SetHandler(wk.Handler(g.World))
+		s.ResetLog() // the byte log is only needed per world; keeping it would grow without bound
 		p := all[r.Intn(len(all))]
 		os.Setenv("VERIF_HOOK_FAIL", "1")
 		os.Setenv("VERIF_HOOK_OUTPUT", "hook says "+p.raw+" bye")
